@@ -611,10 +611,10 @@ func (x *exec) features(d cdiff, res *vsched.Result) []string {
 		}
 	}
 	last := "none" // the last successfully sent message entry that mentions the CID
-	lastAt, cancelAt := -1, -1
+	lastAt, cancelAt, cancelRet := -1, -1, -1
 	for _, a := range x.calls {
 		if (a.o.K == "CA" || a.o.K == "C2") && touches(a.o, d.c) && a.start > cancelAt {
-			cancelAt = a.start
+			cancelAt, cancelRet = a.start, a.ret
 		}
 	}
 	for _, m := range x.msgs {
@@ -640,6 +640,9 @@ func (x *exec) features(d cdiff, res *vsched.Result) []string {
 		"diff", d.kind,
 		"last_message_for_cid", last,
 		"last_message_after_last_cancel_call", fmt.Sprint(cancelAt >= 0 && lastAt > cancelAt),
+		// the cancel call had started but not returned when that message went out: whether the message
+		// precedes or follows the cancel's critical section is not observable from outside
+		"last_message_during_last_cancel_call", fmt.Sprint(cancelAt >= 0 && lastAt > cancelAt && lastAt < cancelRet),
 		"want_not_before_cancel_same_cid", fmt.Sprint(rewant),
 		"rebroadcast", fmt.Sprint(rebro),
 		"cid_in_peer_and_broadcast_lists", fmt.Sprint(peerL && bcstL),
